@@ -817,7 +817,7 @@ func main() {
 					x.Trace, x.Scenario = v.Trace, "stream"
 					r.Report(x)
 				} else {
-					fmt.Println("replay: no violation reproduced")
+					vk.NoRepro()
 				}
 				break
 			}
